@@ -1354,6 +1354,18 @@ func (a blocks) Less(i, j int) bool {
 
 func (a blocks) Swap(i, j int) { a[i], a[j] = a[j], a[i] }
 
+// sortStable moves every block in front of the blocks it lies wholly before and leaves
+// overlapping blocks in their relative (file) order, which the merge relies on to let the
+// newer file win.  Less is not a strict weak ordering (overlap is not transitive), so
+// sort.Stable may reorder overlapping blocks once it merges runs (more than 20 blocks).
+func (a blocks) sortStable() {
+	for i := 1; i < len(a); i++ {
+		for j := i; j > 0 && a.Less(j, j-1); j-- {
+			a.Swap(j, j-1)
+		}
+	}
+}
+
 // NewTSMKeyIterator returns a new TSM key iterator from readers.
 // size indicates the maximum number of values to encode in a single block.
 func NewTSMKeyIterator(size int, fast bool, interrupt chan struct{}, readers ...*TSMReader) (KeyIterator, error) {
